@@ -87,6 +87,15 @@ def run(args) -> int:
             for perm in _it.permutations(base):
                 jobs.append(dict(logic=L['name'], premises=list(perm), conclusion=F(b_), configs=cf[:1] + cf[-3:-2],
                                  timeout_ms=2000, group_key=f"ident:{L['name']}:{json.dumps(second)}"))
+    # crowded branches: many copies of one premise before / after the premise that contradicts it (lookups that only
+    # matter beyond a handful of candidates), both orders in one group
+    A_, B_ = ['A', 0], ['A', 1]
+    NA_ = ['U', 'Negation', A_]
+    for L in logics:
+        for many, one in ((NA_, A_), (A_, NA_)):
+            for prems in ([many] * 7 + [one], [one] + [many] * 7, [many] * 4 + [one] + [many] * 4):
+                jobs.append(dict(logic=L['name'], premises=prems, conclusion=B_, configs=cf[:1] + cf[-3:-2], timeout_ms=2000,
+                                 group_key=f"crowded:{L['name']}:{json.dumps(many)}"))
     # frame-rule dependent arguments: several access nodes pending for the symmetric / transitive / reflexive rules
     # at once, under every configuration (valid in the logics whose frame class makes them so; whatever the verdict,
     # it must be the same under every configuration)
